@@ -9,6 +9,7 @@ import inspect
 import numpy as np
 
 from tvmon import core, ref
+from tvmon import docsig
 from tvmon.ref import EPS
 from tvmon.interpose import installed, LineProbe
 
@@ -149,7 +150,7 @@ def judge_rect(ctx, A, e, dr_min, dr_max, I, B):
 
 
 def make_maxvol(orig):
-    sig = inspect.signature(orig)
+    sig = docsig.sig('maxvol')
 
     def maxvol(*args, **kw):
         a = sig.bind(*args, **kw)
@@ -171,7 +172,7 @@ def make_maxvol(orig):
 
 
 def make_rect(orig):
-    sig = inspect.signature(orig)
+    sig = docsig.sig('maxvol_rect')
 
     def maxvol_rect(*args, **kw):
         a = sig.bind(*args, **kw)
